@@ -136,7 +136,7 @@ def session_family(ctx, extra_args=None, runs=None):
     return viols, cov, files
 
 
-@pipeline("C01", "C02", "C06", "C12", "C13", "C14")
+@pipeline("C01", "C02", "C12", "C13", "C14")
 def p_session(ctx):
     viols, cov, _ = session_family(ctx)
     finish(ctx, viols, cov, assumptions=[
@@ -452,3 +452,36 @@ def p_c20(ctx):
         "traces_validated_against_impl": len(files), "trace_events": events, "samples": samples, "exhaustive": False},
         assumptions=["for calls without closing parenthesis only the loose reading is asserted (none, or a known call of the expression with a valid index)",
                      "with too many arguments and no variadic parameter, falling back to the enclosing call is tolerated (DESIGN 5/C20)"])
+
+
+@pipeline("C06")
+def p_c06(ctx):
+    # (1) every completion result of the typing histories: edit ranges, stops, limit (Session.tla predicates)
+    viols, cov, files1 = session_family(ctx)
+    # (2) Snippet.tla: StopsOK on the transcription for the whole universe + sensitivity; replay on the real producers
+    q = "quick" if ctx.quick else "full"
+    c1, n1 = tlc_cases(ctx, "MC_Snippet.tla", "MC_Snippet_cons_%s.cfg" % q, "mcsnipc", timeout=3000)
+    c2, n2 = tlc_cases(ctx, "MC_Snippet.tla", "MC_Snippet_body_%s.cfg" % q, "mcsnipb", timeout=3000)
+    sens(ctx, "MC_Snippet.tla", "MC_Snippet_sens.cfg", "mcsnipsens")
+    nev = 0
+    for i, c in enumerate((c1, c2)):
+        p = ctx.run_hx(["snip", "-cases", c, "-out", os.path.join(ctx.work, "sn%d" % i)])
+        nev += json.loads(p.stdout.strip().splitlines()[-1])["events"]
+    # (3) population sweep: limit and completeness, hooks
+    p = ctx.run_hx(["pop", "-out", os.path.join(ctx.work, "pop")])
+    nev += json.loads(p.stdout.strip().splitlines()[-1])["events"]
+    files = sorted(glob.glob(os.path.join(ctx.work, "sn*.ndjson")) + glob.glob(os.path.join(ctx.work, "pop.*.ndjson")))
+    bad, events = ctx.validate_traces("TraceSnip.tla", "TraceSnip.cfg", files)
+    drift = 0
+    for f in files:
+        drift += json.load(open(f + ".viol.json")).get("drift", 0)
+    for b in bad:
+        e = json.loads(open(b["file"]).read().splitlines()[b["l"] - 1])
+        viols.append({"what": b["what"], "replay": {"pipeline": "snip", "event": e}})
+    cov["evaluations"] += nev
+    cov["distinct_nontrivial"] += n1 + n2
+    cov["traces_validated_against_impl"] += len(files)
+    cov["trace_events"] += events
+    cov["snippet_cases"] = {"constraint_trees": n1, "bodies": n2, "model_drift_events": drift}
+    cov["rule"] += "; plus one case per (constraint tree, prefill) and per (label count, body schema) of MC_Snippet, and the population sweep (0..250 candidates from six sources, with and without prefix, hooks)"
+    finish(ctx, viols, cov, assumptions=["model drift (transcription M of a producer differs from the code while StopsOK holds) is reported in the evidence, never as a violation"])
